@@ -36,4 +36,11 @@ def scenarios(tier):
         menu = MENU if not q else [e for e in MENU if e not in drop]
         out.append(Scenario("c06-scripts-" + name, World, dict(base, enter=en, exit=ex), menu,
                             max_states=60000 if q else 3000000))
+    out.append(Scenario("c06-region-deleted", World,
+                        dict(base, shrink=True, enter="M300 S1\n", exit="M400\n", maxregions=1),
+                        [("TRAVEL", "I1"), ("TRAVEL", "O2"), ("TRAVEL", "I2"), ("RAW", "M117 a"), ("RAW", "M204 S500"),
+                         ("API", "del", "r", None, False), ("ADD", "R", "r"), ("SCRIPT", "gcode", "afterPrintDone"),
+                         ("AT", "ExcludeRegion", "disable"), ("AT", "ExcludeRegion", "enable")],
+                        max_states=60000 if q else 3000000,
+                        note="the region is deleted (shrinking allowed) and re-added while an episode is open"))
     return out
